@@ -501,6 +501,8 @@ def outer(ctx, da, nprog, nsnip, nsched, dense):
         text, chosen = gen_program(ctx.rng, nsnip)
         progs.append(("gen%d" % k, text.replace("(define keep '())", "(define (verif-gc) #f)\n(define keep '())", 1)))
     nruns = 0
+    if ctx.thorough:
+        nruns += _r7rs(ctx, da)
     for name, text in progs:
         src = os.path.join(work, "outer-%s.scm" % name)
         open(src, "w").write(text)
@@ -685,6 +687,42 @@ def _dense(ctx, da):
                 ctx.violation("schedule:dense:%s" % ("/".join(top[1][:2]) if top else "output"), input="%s under %s" % (src, s),
                               expected="same output as the unforced run", observed=str(top or (rc, out[-200:])),
                               replay="cd %s && CHIBI_VERIF_GC=%s LD_LIBRARY_PATH=. CHIBI_MODULE_PATH=lib CHIBI_IGNORE_SYSTEM_PATH=1 ./chibi-scheme %s" % (da, s, src))
+
+
+def _r7rs(ctx, da):
+    """thorough: the repository's own R7RS test file (1225 tests) under forced schedules; the lines
+    that report elapsed time are normalised"""
+    src = os.path.join(B.REPO, "tests", "r7rs-tests.scm")
+    if not os.path.exists(src):
+        return 0
+    norm = lambda t: re.sub(r"in [0-9.e-]+ seconds", "", t)
+    def go(sched):
+        env = {"CHIBI_VERIF_GC": sched} if sched else {}
+        try:
+            r = B.run_chibi(da, [src], timeout=1500, extra_env=env, cwd=B.REPO)
+            return r.returncode, norm(r.stdout), r.stderr
+        except subprocess.TimeoutExpired:
+            return "TIMEOUT", "", ""
+    rc0, out0, err0 = go(None)
+    if rc0 != 0:
+        ctx.broken("outer:baseline", "tests/r7rs-tests.scm fails without forced collections: rc=%s" % rc0)
+        return 0
+    n = 0
+    for s in ["seed:%d:101" % ctx.rng.randrange(1, 10000), "every:257", "seed:%d:37" % ctx.rng.randrange(1, 10000)]:
+        rc, out, err = go(s)
+        if rc == "TIMEOUT":
+            ctx.note("r7rs-tests under %s timed out (inconclusive)" % s)
+            continue
+        n += 1
+        ctx.count(1, key=("r7rs", s), nontrivial=True)
+        if rc != rc0 or out != out0:
+            top = asan_top(err)
+            l0, l1 = out0.split("\n"), out.split("\n")
+            i = next((i for i, (x, y) in enumerate(zip(l0, l1)) if x != y), min(len(l0), len(l1)))
+            ctx.violation("schedule:r7rs-tests:%s" % ("asan:" + "/".join(top[1][:2]) if top else "output"), input="tests/r7rs-tests.scm under CHIBI_VERIF_GC=%s" % s,
+                          expected="same report as the unforced run", observed=(str(top) if top else "rc=%s, first differing line %d: %r vs %r" % (rc, i, l1[i:i + 1], l0[i:i + 1])),
+                          replay="cd %s && CHIBI_VERIF_GC=%s LD_LIBRARY_PATH=%s CHIBI_MODULE_PATH=%s/lib CHIBI_IGNORE_SYSTEM_PATH=1 ASAN_OPTIONS=detect_leaks=0 %s/chibi-scheme tests/r7rs-tests.scm" % (B.REPO, s, da, da, da))
+    return n
 
 
 def _tiny_heap_probe(ctx, da):
